@@ -58,7 +58,18 @@ pub fn par_map<T: Send + 'static>(
     budget_s: Option<f64>,
     f: impl Fn(u64, usize) -> T + Send + Sync + 'static,
 ) -> Vec<Option<T>> {
-    let next = Arc::new(AtomicU64::new(0));
+    // Abort supervision (see /verif/check): each worker notes the index it is working on in
+    // $STORESIM_MARKERS/inflight-<worker>, so that after a process abort (a panic inside a
+    // destructor while unwinding, a stack overflow) the supervisor knows the candidates;
+    // STORESIM_ONLY_RUN=<index> executes just that index.
+    let markers: Option<std::path::PathBuf> = std::env::var_os("STORESIM_MARKERS").map(Into::into);
+    let only_run: Option<u64> = std::env::var("STORESIM_ONLY_RUN").ok().and_then(|s| s.parse().ok());
+    let abort_at: Option<u64> = std::env::var("STORESIM_TEST_ABORT_AT").ok().and_then(|s| s.parse().ok());
+    let next = Arc::new(AtomicU64::new(only_run.unwrap_or(0)));
+    let n = match only_run {
+        Some(i) => n.min(i + 1),
+        None => n,
+    };
     let results: Arc<Mutex<BTreeMap<u64, T>>> = Arc::new(Mutex::new(BTreeMap::new()));
     let f = Arc::new(f);
     let start = std::time::Instant::now();
@@ -67,6 +78,7 @@ pub fn par_map<T: Send + 'static>(
         let next = Arc::clone(&next);
         let results = Arc::clone(&results);
         let f = Arc::clone(&f);
+        let marker = markers.as_ref().map(|d| d.join(format!("inflight-{w}")));
         handles.push(
             std::thread::Builder::new()
                 .stack_size(16 << 20)
@@ -80,7 +92,17 @@ pub fn par_map<T: Send + 'static>(
                     if i >= n {
                         break;
                     }
+                    if let Some(m) = marker.as_ref() {
+                        let _ = std::fs::write(m, i.to_string());
+                    }
+                    if abort_at == Some(i) {
+                        // self-test of the abort supervision only
+                        std::process::abort();
+                    }
                     let r = f(i, w);
+                    if let Some(m) = marker.as_ref() {
+                        let _ = std::fs::remove_file(m);
+                    }
                     results.lock().unwrap().insert(i, r);
                 })
                 .expect("spawn worker"),
@@ -92,7 +114,7 @@ pub fn par_map<T: Send + 'static>(
     let mut map = std::mem::take(&mut *results.lock().unwrap());
     // only the indices that were handed out: `n` may be a "no limit" count bounded by the budget
     let handed_out = next.load(Ordering::SeqCst).min(n);
-    (0..handed_out).map(|i| map.remove(&i)).collect()
+    (only_run.unwrap_or(0)..handed_out).map(|i| map.remove(&i)).collect()
 }
 
 ///////////////////////////////////////////// known findings ///////////////////////////////////////
